@@ -1,3 +1,6 @@
 import I18n.Py
 import I18n.Model.Expr
+import I18n.Model.Plural
 import I18n.Generated.Intexpr
+import I18n.Props.C05
+import I18n.Props.C06
